@@ -116,6 +116,15 @@ type C02Plan struct {
 	// another stream position) and its exported BedType field is then set to
 	// WriteType.
 	WarmType int `json:"warm_type,omitempty"`
+	// ByteDst: the destination is an io.ByteWriter as well as an io.Writer.
+	ByteDst bool `json:"byte_dst,omitempty"`
+}
+
+func (pl *C02Plan) dst(sink *simio.Sink) io.Writer {
+	if pl.ByteDst {
+		return sink
+	}
+	return simio.Plain{W: sink}
 }
 
 // swSink lets one Writer be used on two media in turn.
@@ -443,6 +452,7 @@ func genC02(r *simrt.RNG) *Case {
 		pl = genGff(r)
 	}
 	pl.Delivery = simio.PickDelivery(r)
+	pl.ByteDst = r.Intn(4) == 0
 	if pl.Format == "bed" && r.Intn(8) == 0 {
 		pl.WarmType = []int{3, 4, 5, 6, 12}[r.Intn(5)]
 		if pl.WarmType > pl.BedType {
@@ -485,10 +495,10 @@ func writeFeatsTo(pl *C02Plan, sink *simio.Sink) (text []byte, want []string, wr
 					return nil, nil, 0, viol(site+"-write-error", "warm-up record at width %d: Write failed on a healthy sink: %v", pl.WarmType, werr)
 				}
 				bw.BedType = pl.WriteType
-				sw.cur = sink
+				sw.cur = pl.dst(sink)
 			}
 		} else {
-			bw, err = bed.NewWriter(sink, pl.WriteType)
+			bw, err = bed.NewWriter(pl.dst(sink), pl.WriteType)
 		}
 		if err != nil {
 			return nil, nil, 0, viol(site+"-writer", "NewWriter(%d): %v", pl.WriteType, err)
@@ -530,7 +540,7 @@ func writeFeatsTo(pl *C02Plan, sink *simio.Sink) (text []byte, want []string, wr
 		}
 		return sink.Buf, want, sink.NCalls, nil
 	}
-	gw := gff.NewWriter(sink, pl.Width, pl.Header)
+	gw := gff.NewWriter(pl.dst(sink), pl.Width, pl.Header)
 	w = gw
 	retry := pl.Retry
 	for i := 0; i < len(pl.Items); i++ {
